@@ -34,6 +34,12 @@ def check(tier, seed):
                 for other in fam.MODES + ('internal',):
                     if other != mode:
                         cases.append({'line': f"verify {s} {other} {base} {hx(msg)} {hx(ctx)} {sig.hex()}", 'tag': 'other mode / other pre-hash', 'want': 'false', 'model': k == 0 and other == 'sha256'})
+                # the formatted message M' itself presented as a *message* to the external interfaces (only the internal interface takes M' as it is):
+                # with the empty context, with the signed context, in every mode
+                mp = R.format_message(mode, msg, ctx)
+                for vm in fam.MODES:
+                    for c3 in ((b'',) if ctx == b'' else (b'', ctx)):
+                        cases.append({'line': f"verify {s} {vm} {base} {hx(mp)} {hx(c3)} {sig.hex()}", 'tag': "the formatted message M' presented as a message", 'want': 'false', 'model': k == 0 and vm == 'pure'})
                 # crafted mimicry: present the other mode's formatted tail as a pure message (and conversely)
                 if mode != 'pure':
                     tail = R.OIDS[mode] + R.prehash(mode, msg)
